@@ -272,6 +272,10 @@ def run(props):
         shutil.rmtree(tmp, ignore_errors=True)
     d = os.path.join(HERE, "selftest")
     os.makedirs(d, exist_ok=True)
+    if props and os.path.exists(os.path.join(d, "t1_mutants.json")):
+        # a run restricted to some properties replaces their records only; the others are kept as last recorded
+        kept = [m for m in json.load(open(os.path.join(d, "t1_mutants.json"))).get("mutants", []) if m.get("property") not in props]
+        out = sorted(kept + out, key=lambda m: m.get("property", ""))
     json.dump(dict(repo_head=subprocess.run(["git", "-C", REPO, "rev-parse", "HEAD"], capture_output=True, text=True).stdout.strip(), mutants=out),
               open(os.path.join(d, "t1_mutants.json"), "w"), indent=1)
     bad = [m for m in out if not m.get("detected")]
